@@ -65,6 +65,22 @@ Theorem C08_reload_serialized : forall evs, exists k, rl_run true 0 evs = Some k
 Proof. exact reload_serialized. Qed.
 Print Assumptions C08_reload_serialized.
 
+(* index lock vs. a unit's status lock: `work list` / `work status` against `work release`, in
+   every interleaving of their lock steps, both finish *)
+Theorem C08_list_release_no_deadlock :
+  lk_explore 20 (lk_init list_ops release_ops) = true /\
+  lk_explore 20 (lk_init release_ops list_ops) = true /\
+  lk_explore 20 (lk_init list_ops list_ops) = true /\
+  lk_explore 20 (lk_init release_ops release_ops) = true.
+Proof. exact list_release_no_deadlock. Qed.
+Print Assumptions C08_list_release_no_deadlock.
+
+(* a listing that reads unit status inside the index read section (the order opposite to
+   Release's) has a deadlocking interleaving — why the phase `list-vs-release` of the harness exists *)
+Theorem C08_list_release_nested_refuted : lk_explore 20 (lk_init list_ops_nested release_ops) = false.
+Proof. exact list_release_nested_refuted. Qed.
+Print Assumptions C08_list_release_nested_refuted.
+
 (* non-vacuity: a well-formed node; a session with CR, empty lines, valid and invalid commands, a
    unit loaded from disk and an unterminated last line executed at the half-close *)
 Example C08_nonvacuous :
